@@ -312,3 +312,57 @@ Proof.
     inversion H; subst. destruct (IH r eq_refl) as [a [b [A [B C]]]]. subst.
     exists (x :: a), b. simpl. repeat split; try reflexivity. intros [F|F]; [congruence | contradiction].
 Qed.
+
+(* ---------------------------------------------------------------- summary statements *)
+
+Lemma append_values_nil : forall vs, append_values [] vs = encode vs.
+Proof. intro. rewrite append_values_encode. reflexivity. Qed.
+
+(* whatever was appended is read back, in order, and nothing else; the first chunk splits off *)
+Lemma chunks_roundtrip : forall ws vs, Forall okv ws -> Forall okv vs ->
+  for_each_data (append_values (append_values [] ws) vs) = (ws ++ vs, 0) /\
+  find_data (append_values (append_values [] ws) vs) =
+    match ws ++ vs with [] => Err E_EOF | v :: _ => Ok v end /\
+  (forall v, okv v -> read_next_chunk (append_values [] (v :: vs)) = Ok (v, append_values [] vs)).
+Proof.
+  intros ws vs Hw Hv.
+  assert (E : append_values (append_values [] ws) vs = encode (ws ++ vs)).
+  { rewrite !append_values_encode, encode_app. reflexivity. }
+  assert (W : Forall okv (ws ++ vs)) by (apply Forall_app; split; assumption).
+  rewrite E. split; [apply for_each_data_encode; assumption|]. split; [apply find_data_encode; assumption|].
+  intros v Ov. rewrite !append_values_nil. cbn [encode]. apply read_next_chunk_chunk. assumption.
+Qed.
+
+Lemma del_removes_one : forall vs v, Forall okv vs ->
+  del_value (append_values [] vs) v =
+    match remove_first v vs with
+    | Some vs' => Ok (append_values [] vs')
+    | None => Err E_NXVAL
+    end /\
+  (remove_first v vs = None <-> ~ In v vs) /\
+  (forall vs', remove_first v vs = Some vs' -> exists a b, vs = a ++ v :: b /\ vs' = a ++ b /\ ~ In v a).
+Proof.
+  intros vs v H. split; [|split].
+  - rewrite append_values_nil, del_value_encode by assumption.
+    destruct (remove_first v vs); [rewrite append_values_nil|]; reflexivity.
+  - pose proof (remove_first_in v vs) as I. destruct (remove_first v vs); split; intro X; try congruence.
+    + exfalso. apply X. apply I. discriminate.
+    + intro Y. apply I in Y. congruence.
+  - intros vs' R. apply remove_first_split. assumption.
+Qed.
+
+(* on arbitrary stored bytes the loops end within their fuel and never index out of range *)
+Lemma codec_total : forall data value,
+  (match del_value data value with
+   | Ok d => nlen d + 4 <= nlen data
+   | Err e => e = E_UEOF \/ e = E_NXVAL
+   end) /\
+  (snd (for_each_data data) = 0 \/ snd (for_each_data data) = E_UEOF) /\
+  (match read_next_chunk data with
+   | Ok (v, rest) => 4 + nlen v + nlen rest = nlen data
+   | Err e => e = E_EOF \/ e = E_UEOF
+   end).
+Proof.
+  intros. split; [apply del_value_total|]. split; [|apply read_next_chunk_cases].
+  unfold for_each_data. apply for_each_loop_fuel. lia.
+Qed.
